@@ -346,6 +346,12 @@ impl Op {
     pub fn text(s: &str) -> Op {
         Op::new(Cmd::Text(s.to_string()))
     }
+    /// an abstract command with an explicitly given spelling (zero-padded parameters ...)
+    pub fn spelled(cmd: Cmd, text: &str) -> Op {
+        let mut o = Op::new(cmd);
+        o.text = text.to_string();
+        o
+    }
     pub fn raw(s: &str) -> Op {
         Op::new(Cmd::Raw(s.to_string()))
     }
